@@ -17,6 +17,7 @@ CASES = [
     ("h/a/*/>/*", "h/a/", "/v2/g", "h/a/x/v1/m;h/a/x/v2/g;h/a/x/v1/b", "@/H/A/x/v3/O/y_v3.g", "/H/A/x/v3/x_v3.", "Q"),
     ("h/a/*", "h/a/", "", "h/a/x/v1/m", "@/H/A/.x.data.json;@/H/A/x/.v1.data.json", "/H/A/.", ".data.json"),
     ("h/a/x,*", "h/a/", "", "h/a/x;h/a/y/v1", "@/H/A/x/vv", "/H/A/x/v1/x_v1.", "QQ"),
+    ("h/a/x.y/*", "h/a/x", "y/v1", "h/a/x.y/v1;h/a/x_y/v2;h/a/x.y", "@/H/A/x.y/vv", "", ""),      # a regex metacharacter in a literal value: the list search must not treat it as one
 ]
 ALL_CASES = [("h/*/*", "h/a/", "", "h/s/q1"), ("h/*", "h/a/", "", ""), ("*", "h/a/", "", ""), ("h/a/*/*", "h/a/", "/v1", "h/a/x/v2"), ("h/s,a", "h/a/", "", ""), ("*/a,s", "h/a/", "", ""), ("*/*", "h/a/", "", ""), ("*/s,a/*", "h/a/", "", "h/s/q1")]
 
@@ -46,6 +47,12 @@ def x_obligations(tier):
                  bound="an existing entity named 'x[' + c + ']' (c any character) searched by its own Sid; expected to hit the known finding C11-glob-magic"))
     o.append(Obl("C11-reach", M, "reach", env={"VF_SEARCH": "h/a/*", "VF_EPRE": "h/a/", "VF_FIXED": "h/a/x/v1/m"}, timeout=150, expect="refute", family="C11-twin"))
     return o
+
+
+def z_obligations(tier):
+    # the list search under every relation of this property is FindInList's glob -> regex translation: z3 equivalence with the reference glob language
+    n = 3 if tier == "quick" else 4
+    return [dict(name=f"C11-glob[len<={n}]", module="tplz3.c08z", func="glob", args={"maxlen": n}, timeout=1500, family="C11-glob")]
 
 
 META = {
